@@ -258,5 +258,5 @@ pub fn j<T: serde::Serialize>(v: &T) -> String {
 
 pub mod prelude {
     pub use crate::errs::{DescribeErr, IfaceErr, MonErr, PlanErr};
-    pub use crate::{echo_mut, echo_query, j, note_new, MyMsg, MyQuery, ReplyObs};
+    pub use crate::{echo_mut, echo_query, j, note_new, MyMsg, MyQuery, Pt, ReplyObs, Shape};
 }
